@@ -21,7 +21,12 @@ def L(a, n):
 
 
 def run_case(case, tier):
-    h = herd.run_herd(case)
+    try:
+        h = herd.run_herd(case)
+    except (AssertionError, ValueError, ZeroDivisionError, KeyError, IndexError, TypeError) as e:
+        return {"viol": [{"mech": "herd_simulation_raised", "msg": "%s/%s/%s: main() raised %r" % (case["iso"], case["strategy"], case["shape"], e), "data": {"iso": case["iso"]}}],
+                "obs": {"iso": case["iso"], "strategy": case["strategy"], "shape": case["shape"], "N": case["N"], "species": 0, "species_months": 0, "worst_rel_err": 0.0,
+                        "active": {k: 0 for k in ("births", "transfer", "slaughter", "starve", "homekill", "clamp", "target_floor", "hours_binding")}, "feed_used_frac": None}}
     animals, N = h["animals"], h["N"]
     viol = []
 
@@ -111,6 +116,11 @@ def run_case(case, tier):
                 if a.animal_size == size:
                     used += L(a, "slaughter")[1:] * a.animal_slaughter_hours
             cap = np.array([hh[size] for hh in hours], float)
+            # the class's baseline capacity recomputed from the species themselves (hours per head x baseline slaughter per month)
+            indep = sum(a.animal_slaughter_hours * a.baseline_slaughter for a in animals if a.animal_size == size and not np.isnan(a.animal_slaughter_hours * a.baseline_slaughter))
+            if np.abs(cap - indep).max() > 1e-9 * max(1.0, abs(indep)):
+                bad("slaughter_budget_differs_from_baseline_capacity", "size %s: monthly budget %.6f, baseline capacity of that class %.6f" % (size, cap[int(np.abs(cap - indep).argmax())], indep), size=size)
+                cap = np.full(N, indep)
             over = used - cap
             if over.max() > 1e-9 * max(1.0, cap.max()) + 1e-6:
                 m = int(over.argmax())
